@@ -98,7 +98,10 @@ class Renderer(object):
     def step(self, st, key, indent):
         kw = st["kw"]
         sep = "" if st.get("nospace") else " "
-        self.emit(kw + sep + st["text"], key, indent)
+        trail = ""
+        if self.layout and self.rng.random() < 0.2:
+            trail = self.rng.choice([" ", "  ", "\t", " \t"])       # invisible blanks behind the step text: not part of it
+        self.emit(kw + sep + st["text"] + trail, key, indent)
         if st.get("doc") is not None:
             q = st.get("doc_quote", '"""')
             if self.layout:
